@@ -178,7 +178,13 @@ pub fn probe(out: &mut Out, rx: &mut Rx<DefaultCrc>, rng: &mut Rng, pdu_size: us
         2 => vec![rng.range(0, n2 / 2), n2],
         _ => vec![rng.range(0, n2 / 2), rng.range(1, n2 / 2 + 1)],
     };
-    for p in train(&pdu2, &label2, reuse, 0x86DD, id, &cuts) {
+    let mut tt = train(&pdu2, &label2, reuse, 0x86DD, id, &cuts);
+    if rng.chance(1, 4) {
+        // ... and its first fragment may carry an optional extension (the total length counts no extension bytes)
+        tt[0].ptype = 0x0211;
+        tt[0].chain = vec![0xE1, 0xE2, 0x86, 0xDD];
+    }
+    for p in tt {
         if p.kind == 0 && p.payload.is_empty() {
             continue; // an intermediate fragment without payload is not well formed
         }
